@@ -25,6 +25,7 @@ RULE = ('weights: strictly monotonic source (2-10 levels; 1 level noted) and '
         'from source; distinct = digest of the spec.')
 RULE += (' Also: integer-typed source coordinates, coordkey other than the dimension name, a linear-profile law for the linear interpSigma with another model top.')
 RULE += (" bpchsigma (one case in 21): the GEOS-Chem class's own interpSigma on the object bpch1/bpch2 return for a reference image with 47-, 30- or 12-layer tracers (copied, profile written): linear profiles in sigma mid-points are reproduced (edge values beyond the inputs unless extrapolating), constant fields stay constant, a random profile is the linear interpolation of its neighbours, target == source is the identity, for the model top, 0 and a top above the model's.")
+RULE += (' N-D coordinate cases also place targets beyond a column\'s source range, with and without extrapolate=True.')
 ASSUMPTIONS = [
     'laws, not a reference implementation: non-negativity, partition of '
     'unity, linear exactness, identity, clipping at the edges when not '
@@ -87,7 +88,11 @@ def gen(rng, idx, tier, seed):
                     n=int(rng.integers(2, 7)), m=int(rng.integers(1, 7)),
                     nsrc=int(rng.integers(1, 4)),
                     kind=str(rng.choice(['inside', 'inside', 'same',
-                                         'interleaved'])))
+                                         'interleaved', 'beyond',
+                                         'beyond'])))
+        # (targets beyond a column's source range: edge values by default,
+        # the line continued with extrapolate=True)
+        spec['extrapolate'] = bool(rng.random() < 0.5)
         return spec
     if mode in ('weights', 'filedim', 'interpvars'):
         n = int(rng.integers(2, 11)) if rng.random() > 0.03 else 1
@@ -183,13 +188,20 @@ def run_filedimnd(spec, res, pnc):
             tgt[c] = src[c]
         elif spec['kind'] == 'interleaved':
             tgt[c] = (src[c][:-1] + src[c][1:]) / 2.
+        elif spec['kind'] == 'beyond':
+            tgt[c] = mono(rng, m, src[c].min() - 5, src[c].max() + 5)
         else:
             tgt[c] = mono(rng, m, src[c].min(), src[c].max())
+    extrap = bool(spec.get('extrapolate')) and spec['kind'] == 'beyond'
+    # where the line is evaluated: the target itself, or - without
+    # extrapolation - the target clipped to the column's source range
+    teff = tgt if extrap else np.clip(tgt, src.min(1)[:, None],
+                                      src.max(1)[:, None])
 
     def to_nd(a2):
         a = a2.reshape(cols + [a2.shape[1]])
         return np.moveaxis(a, -1, ax)
-    srcnd, tgtnd = to_nd(src), to_nd(tgt)
+    srcnd, tgtnd, teffnd = to_nd(src), to_nd(tgt), to_nd(teff)
     sl = to_nd(rng.uniform(-2, 2, (ncol, 1)))
     ic = to_nd(rng.uniform(-5, 5, (ncol, 1)))
     f = pnc.PseudoNetCDFFile()
@@ -204,10 +216,11 @@ def run_filedimnd(spec, res, pnc):
     nz[...] = tgtnd
     problems = []
     try:
-        out = f.interpDimension('z', nz)
+        out = f.interpDimension('z', nz, extrapolate=True) if extrap \
+            else f.interpDimension('z', nz)
         res.hook('interpDimension.return')
         got = np.asarray(out.variables['lin'][...], 'f8')
-        exp = sl * tgtnd + ic
+        exp = sl * teffnd + ic
         tol = 1e-8 * (1 + np.abs(exp).max())
         if got.shape != exp.shape:
             problems.append('N-D interpDimension: lin has shape %s expected '
@@ -215,13 +228,14 @@ def run_filedimnd(spec, res, pnc):
         elif np.abs(got - exp).max() > tol:
             j = np.unravel_index(np.argmax(np.abs(got - exp)), exp.shape)
             problems.append('N-D interpDimension along axis %d of rank %d '
-                            '(%d source profiles over %d columns): linear '
+                            '(%d source profiles over %d columns%s): linear '
                             'profile not reproduced at %s: got %r expected %r'
-                            % (ax, rank, len(profiles), ncol, j, got[j],
-                               exp[j]))
+                            % (ax, rank, len(profiles), ncol,
+                               ', extrapolate=True' if extrap else '', j,
+                               got[j], exp[j]))
         gz = np.asarray(out.variables['z'][...], 'f8')
-        if gz.shape != tgtnd.shape or np.abs(gz - tgtnd).max() > 1e-8 * (
-                1 + np.abs(tgtnd).max()):
+        if gz.shape != teffnd.shape or np.abs(gz - teffnd).max() > 1e-8 * (
+                1 + np.abs(teffnd).max()):
             problems.append('N-D interpDimension: coordinate z after '
                             'interpolation is not the target coordinate')
     except LawBroken:
